@@ -146,6 +146,123 @@ func suiteHLL(c *Ctx) {
 		hllCase(c, m, i%2 == 1)
 	}
 	hllMismatch(c)
+	for i := 0; i < c.scale(6, 30); i++ {
+		hllRecycled(c, []uint64{128, 256, 1024}[i%3], i%2 == 0)
+	}
+	hllHighRegisters(c, false)
+	hllHighRegisters(c, true)
+	hllManyRegisters(c)
+}
+
+// hllRecycled: a handle that has updated a sketch takes over another (here: an empty) sketch by an
+// Import in place and receives the same elements again: it must end up like a new sketch that
+// received them once (whatever the handle remembers about values it has already written describes
+// a sketch that is gone).
+func hllRecycled(c *Ctx, m uint64, redis bool) {
+	cfg := fmt.Sprintf("hll(m=%d,redis=%v), recycled handle", m, redis)
+	H, e1 := newHLL(m, redis)
+	E, e2 := newHLL(m, redis)
+	F, e3 := newHLL(m, redis)
+	if e1 != nil || e2 != nil || e3 != nil {
+		return
+	}
+	c.rep.Cases++
+	elems := elemPool(c.rng, 6, false)
+	for _, e := range elems {
+		H.Update(e)
+	}
+	H.Count(false, false)
+	doc, err := E.Export()
+	if err != nil {
+		return
+	}
+	if ierr := eqHLL(redis).impInPlace(H, doc); ierr != nil {
+		c.fail([]string{"C06", "C10"}, "hll-import-in-place-fails", fmt.Sprintf("%s: Import of an empty sketch of the same size into a used handle failed: %v", cfg, ierr), cfg)
+		return
+	}
+	if r0, _ := hllRegs(H); !eqU64(r0, make([]uint64, m)) {
+		c.fail([]string{"C06", "C10"}, "hll-recycled-handle-differs", cfg+": after importing an empty sketch the registers are not all zero", cfg)
+		return
+	}
+	for _, e := range elems {
+		H.Update(e)
+		F.Update(e)
+	}
+	rh, _ := hllRegs(H)
+	rf, _ := hllRegs(F)
+	if !eqU64(rh, rf) {
+		c.fail([]string{"C06", "C10", "C05"}, "hll-recycled-handle-differs", fmt.Sprintf("%s: the same %d elements give other registers on a handle that held (and had updated) another sketch before an Import in place than on a new sketch", cfg, len(elems)), map[string]interface{}{"config": cfg, "pool": poolHex(elems)})
+		return
+	}
+	for _, fl := range hllFlags() {
+		a, _ := H.Count(fl[0], fl[1])
+		b, _ := F.Count(fl[0], fl[1])
+		if a != b {
+			c.fail([]string{"C06", "C10", "C05"}, "hll-recycled-handle-differs", fmt.Sprintf("%s: Count%v = %d on the recycled handle, %d on a new sketch with the same registers", cfg, fl, a, b), cfg)
+			return
+		}
+	}
+	c.branch("recycled-handle")
+}
+
+// hllHighRegisters: register images that only Import / ReadFrom / Merge can produce on the pinned
+// code (every register high): the raw estimate passes 2^32/30 and the large-range branch of the
+// estimator is taken.  Every Count variant is replayed through the model (hll.count).
+func hllHighRegisters(c *Ctx, redis bool) {
+	for _, v := range []uint8{17, 18, 20, 21} {
+		m := uint64(1024)
+		h, err := newHLL(m, redis)
+		if err != nil {
+			return
+		}
+		d, err := parseHLL(h.Export())
+		if err != nil {
+			return
+		}
+		regs := make([]uint8, m)
+		for i := range regs {
+			regs[i] = v + uint8(c.rng.Intn(2))
+		}
+		d.R = regs
+		doc, _ := json.Marshal(d)
+		if ierr := eqHLL(redis).impInPlace(h, doc); ierr != nil {
+			continue
+		}
+		c.rep.Cases++
+		rr, _ := hllRegs(h)
+		for _, fl := range hllFlags() {
+			cnt, err := h.Count(fl[0], fl[1])
+			if err != nil {
+				c.fail([]string{"C05", "C06", "C08"}, "hll-count-fails", err.Error(), fmt.Sprintf("hll(m=%d,redis=%v) all registers about %d", m, redis, v))
+				return
+			}
+			c.emit("hll.count %d %s %d %d %d", m, natList(rr), b2i(fl[0]), b2i(fl[1]), cnt)
+		}
+		c.branch("high-registers")
+	}
+}
+
+// hllManyRegisters: 2^16 and 2^17 registers (in memory), nearly all equal: whatever the estimator
+// tallies per register value must not be a 16-bit quantity.  Replayed through the model.
+func hllManyRegisters(c *Ctx) {
+	for _, m := range []uint64{1 << 16, 1 << 17} {
+		h, err := newHLL(m, false)
+		if err != nil {
+			return
+		}
+		c.rep.Cases++
+		for round := 0; round < 2; round++ {
+			rr, _ := hllRegs(h)
+			for _, fl := range hllFlags() {
+				cnt, _ := h.Count(fl[0], fl[1])
+				c.emit("hll.count %d %s %d %d %d", m, natList(rr), b2i(fl[0]), b2i(fl[1]), cnt)
+			}
+			for i := 0; i < 5; i++ {
+				h.Update([]byte(fmt.Sprintf("many-%d-%d", c.seed, i)))
+			}
+		}
+		c.branch("many-registers")
+	}
 }
 
 func hllRegs(h hllHandle) ([]uint64, error) {
